@@ -81,5 +81,57 @@ let d = *p.0; let w = *p.1;
 //@end
 }
 
+// ---- C20 as lemmas over the contracts proved above (see unit `deviation` for the reading) ---------------------------------
+pub open spec fn same_logical<A, D: Dimension>(a: &ArrayN<A, D>, b: &ArrayN<A, D>) -> bool { a@ == b@ && a.shape_spec() == b.shape_spec() }
+pub open spec fn same_err(e1: MultiInputError, e2: MultiInputError) -> bool {
+    match (e1, e2) {
+        (MultiInputError::EmptyInput, MultiInputError::EmptyInput) => true,
+        (MultiInputError::ShapeMismatch(s1), MultiInputError::ShapeMismatch(s2)) => s1.first_shape@ == s2.first_shape@ && s1.second_shape@ == s2.second_shape@,
+        _ => false,
+    }
+}
+pub open spec fn same_answer<T>(r1: Result<T, MultiInputError>, r2: Result<T, MultiInputError>) -> bool {
+    match (r1, r2) { (Ok(v1), Ok(v2)) => v1 == v2, (Err(e1), Err(e2)) => same_err(e1, e2), _ => false }
+}
+pub open spec fn plus<A: Add<Output = A>>() -> spec_fn(A, A) -> A { |acc: A, x: A| acc.add_spec(x) }
+// weighted_sum pairs by logical index and adds in logical order: the same value for every layout, whatever the arithmetic
+proof fn lemma_layout_weighted_sum<A: Copy + Mul<Output = A> + Add<Output = A> + Zero, D: Dimension>(a1: ArrayN<A, D>, a2: ArrayN<A, D>, w1: ArrayN<A, D>, w2: ArrayN<A, D>, r1: Result<A, MultiInputError>, r2: Result<A, MultiInputError>)
+    requires
+        same_logical(&a1, &a2), same_logical(&w1, &w2),
+        call_ensures(ArrayN::<A, D>::weighted_sum, (&a1, &w1), r1), call_ensures(ArrayN::<A, D>::weighted_sum, (&a2, &w2), r2),
+    ensures same_answer(r1, r2), // [C20]
+{
+}
+// weighted_mean and mean add with ndarray's `sum`, whose order is unspecified: the same value whenever the order of
+// summation is immaterial for the element type (integers, exact types; for floats the answers agree up to summation roundoff)
+proof fn lemma_layout_weighted_mean<A: Copy + Div<Output = A> + Mul<Output = A> + Add<Output = A> + Zero, D: Dimension>(a1: ArrayN<A, D>, a2: ArrayN<A, D>, w1: ArrayN<A, D>, w2: ArrayN<A, D>, r1: Result<A, MultiInputError>, r2: Result<A, MultiInputError>)
+    requires
+        same_logical(&a1, &a2), same_logical(&w1, &w2), vstd::seq_lib::commutative_foldl(|acc: A, x: A| acc.add_spec(x)),
+        call_ensures(ArrayN::<A, D>::weighted_mean, (&a1, &w1), r1), call_ensures(ArrayN::<A, D>::weighted_mean, (&a2, &w2), r2),
+    ensures same_answer(r1, r2), // [C20]
+{
+    if r1 is Ok && r2 is Ok {
+        let f = |acc: A, x: A| acc.add_spec(x);
+        let s1 = choose|ws: Seq<A>| #[trigger] ws.to_multiset() == w1@.to_multiset() && r1->Ok_0 == zip_seq(a1@, w1@).fold_left(A::zero_spec(), wsum_f::<A>()).div_spec(ws.fold_left(A::zero_spec(), |acc: A, x: A| acc.add_spec(x)));
+        let s2 = choose|ws: Seq<A>| #[trigger] ws.to_multiset() == w2@.to_multiset() && r2->Ok_0 == zip_seq(a2@, w2@).fold_left(A::zero_spec(), wsum_f::<A>()).div_spec(ws.fold_left(A::zero_spec(), |acc: A, x: A| acc.add_spec(x)));
+        vstd::seq_lib::lemma_fold_left_permutation(s1, w1@, f, A::zero_spec());
+        vstd::seq_lib::lemma_fold_left_permutation(s2, w1@, f, A::zero_spec());
+    }
+}
+proof fn lemma_layout_mean<A: Clone + FromPrimitive + Add<Output = A> + Div<Output = A> + Zero, D: Dimension>(a1: ArrayN<A, D>, a2: ArrayN<A, D>, r1: Result<A, MinMaxError>, r2: Result<A, MinMaxError>)
+    requires
+        same_logical(&a1, &a2), vstd::seq_lib::commutative_foldl(|acc: A, x: A| acc.add_spec(x)),
+        call_ensures(ArrayN::<A, D>::mean, (&a1,), r1), call_ensures(ArrayN::<A, D>::mean, (&a2,), r2),
+    ensures r1 == r2, // [C20]
+{
+    if r1 is Ok && r2 is Ok {
+        let f = |acc: A, x: A| acc.add_spec(x);
+        let p1 = choose|ps: Seq<A>| #[trigger] ps.to_multiset() == a1@.to_multiset() && r1->Ok_0 == ps.fold_left(A::zero_spec(), |acc: A, x: A| acc.add_spec(x)).div_spec(A::from_usize_spec(a1@.len() as usize).unwrap());
+        let p2 = choose|ps: Seq<A>| #[trigger] ps.to_multiset() == a2@.to_multiset() && r2->Ok_0 == ps.fold_left(A::zero_spec(), |acc: A, x: A| acc.add_spec(x)).div_spec(A::from_usize_spec(a2@.len() as usize).unwrap());
+        vstd::seq_lib::lemma_fold_left_permutation(p1, a1@, f, A::zero_spec());
+        vstd::seq_lib::lemma_fold_left_permutation(p2, a1@, f, A::zero_spec());
+    }
+}
+
 } // verus!
 fn main() {}
